@@ -138,6 +138,9 @@ func stdPackage(ipath string) (*packages.Package, error) {
 	return p, nil
 }
 
+// StdImporter is the shared source importer for the standard library.
+func StdImporter() types.Importer { return stdImporter }
+
 type progImporter struct {
 	user map[string]*packages.Package
 }
